@@ -331,3 +331,7 @@ import props_c07
 props_c07.register(_sys.modules[__name__])
 import props_c05
 props_c05.register(_sys.modules[__name__])
+import props_c03
+props_c03.register(_sys.modules[__name__])
+import props_c01
+props_c01.register(_sys.modules[__name__])
